@@ -39,18 +39,32 @@ import (
 
 // ---------------------------------------------------------------- the registered functions
 
-var wirFeatureTypes = []model.FeatureTypeType{
-	model.FeatureTypeTypeActuatorLevel, model.FeatureTypeTypeActuatorSwitch, model.FeatureTypeTypeAlarm,
-	model.FeatureTypeTypeDataTunneling, model.FeatureTypeTypeDeviceClassification, model.FeatureTypeTypeDeviceDiagnosis,
-	model.FeatureTypeTypeDirectControl, model.FeatureTypeTypeElectricalConnection, model.FeatureTypeTypeGeneric,
-	model.FeatureTypeTypeHvac, model.FeatureTypeTypeLoadControl, model.FeatureTypeTypeMeasurement,
-	model.FeatureTypeTypeMessaging, model.FeatureTypeTypeNetworkManagement, model.FeatureTypeTypeNodeManagement,
-	model.FeatureTypeTypeOperatingConstraints, model.FeatureTypeTypePowerSequences, model.FeatureTypeTypeSensing,
-	model.FeatureTypeTypeSetpoint, model.FeatureTypeTypeSmartEnergyManagementPs, model.FeatureTypeTypeTaskManagement,
-	model.FeatureTypeTypeThreshold, model.FeatureTypeTypeTimeInformation, model.FeatureTypeTypeTimeTable,
-	model.FeatureTypeTypeDeviceConfiguration, model.FeatureTypeTypeSupplyCondition, model.FeatureTypeTypeTimeSeries,
-	model.FeatureTypeTypeTariffInformation, model.FeatureTypeTypeIncentiveTable, model.FeatureTypeTypeBill,
-	model.FeatureTypeTypeIdentification, model.FeatureTypeTypeStateInformation,
+// wirFeatureTypes: the feature type constants, as enumerated from the sources by the translator (G1,
+// go/ast over model/*.go) and handed over by the driver — only the list of inputs, nothing about
+// behaviour. Fallback: the constants known when the harness was written.
+func wirFeatureTypes(d *h.Driver) []model.FeatureTypeType {
+	var out []model.FeatureTypeType
+	if d != nil {
+		for _, f := range strings.Fields(d.Ask("features")) {
+			out = append(out, model.FeatureTypeType(f))
+		}
+	}
+	if len(out) == 0 {
+		out = []model.FeatureTypeType{
+			model.FeatureTypeTypeActuatorLevel, model.FeatureTypeTypeActuatorSwitch, model.FeatureTypeTypeAlarm,
+			model.FeatureTypeTypeDataTunneling, model.FeatureTypeTypeDeviceClassification, model.FeatureTypeTypeDeviceDiagnosis,
+			model.FeatureTypeTypeDirectControl, model.FeatureTypeTypeElectricalConnection, model.FeatureTypeTypeGeneric,
+			model.FeatureTypeTypeHvac, model.FeatureTypeTypeLoadControl, model.FeatureTypeTypeMeasurement,
+			model.FeatureTypeTypeMessaging, model.FeatureTypeTypeNetworkManagement, model.FeatureTypeTypeNodeManagement,
+			model.FeatureTypeTypeOperatingConstraints, model.FeatureTypeTypePowerSequences, model.FeatureTypeTypeSensing,
+			model.FeatureTypeTypeSetpoint, model.FeatureTypeTypeSmartEnergyManagementPs, model.FeatureTypeTypeTaskManagement,
+			model.FeatureTypeTypeThreshold, model.FeatureTypeTypeTimeInformation, model.FeatureTypeTypeTimeTable,
+			model.FeatureTypeTypeDeviceConfiguration, model.FeatureTypeTypeSupplyCondition, model.FeatureTypeTypeTimeSeries,
+			model.FeatureTypeTypeTariffInformation, model.FeatureTypeTypeIncentiveTable, model.FeatureTypeTypeBill,
+			model.FeatureTypeTypeIdentification, model.FeatureTypeTypeStateInformation,
+		}
+	}
+	return out
 }
 
 type wirFn struct {
@@ -95,9 +109,9 @@ func wirExpected(p reflect.Type) (sel, el reflect.StructField, hasSel, hasEl boo
 	return
 }
 
-func wirFunctions() []*wirFn {
+func wirFunctions(fts []model.FeatureTypeType) []*wirFn {
 	byName := map[string]*wirFn{}
-	for _, ft := range wirFeatureTypes {
+	for _, ft := range fts {
 		var fds []api.FunctionDataCmdInterface
 		h.Recover(func() { fds = spine.CreateFunctionData[api.FunctionDataCmdInterface](ft) })
 		for _, fd := range fds {
@@ -884,7 +898,7 @@ func TestWireCmd(t *testing.T) {
 	defer r.Write()
 	d := h.StartDriver("drv_cmd")
 	defer d.Close()
-	fns := wirFunctions()
+	fns := wirFunctions(wirFeatureTypes(d))
 	byName := map[string]*wirFn{}
 	var names []string
 	for _, f := range fns {
@@ -1078,7 +1092,10 @@ func TestWireJson(t *testing.T) {
 			types[t.Name()] = t
 		}
 	}
-	for _, f := range wirFunctions() {
+	dc := h.StartDriver("drv_cmd")
+	fts := wirFeatureTypes(dc)
+	dc.Close()
+	for _, f := range wirFunctions(fts) {
 		add(f.payload)
 		add(f.selT)
 		add(f.elT)
